@@ -53,28 +53,37 @@ Proof.
 Qed.
 Lemma trT_while lim k t c ce br : trT ce -> trT br -> trT (while_loop lim k t c ce br).
 Proof.
-  intros Hc Hb. induction k as [|k IH]; intros P SP; cbn [while_loop]; [apply tr_failm|].
+  intros Hc Hb. induction k as [|k IH]; intros P SP; cbn [while_loop]; [(apply tr_failm; okf)|].
   eapply tr_bind; [exact SP|apply tr_hn; [exact SP|apply hn_tick]|]. intros u.
   eapply tr_bind; [stab|apply trT_cond_bool; [exact Hc|stab]|]. intros v. destruct (negb v); [eapply tr_true; apply tr_ret|].
   eapply tr_bind; [stab|apply trT_run_body; [exact Hb|stab]|]. intros g. destruct g; [apply IH; stab|eapply tr_true; apply tr_ret].
 Qed.
 Lemma trT_repeat lim k t c ce br : trT ce -> trT br -> trT (repeat_loop lim k t c ce br).
 Proof.
-  intros Hc Hb. induction k as [|k IH]; intros P SP; cbn [repeat_loop]; [apply tr_failm|].
+  intros Hc Hb. induction k as [|k IH]; intros P SP; cbn [repeat_loop]; [(apply tr_failm; okf)|].
   eapply tr_bind; [exact SP|apply tr_hn; [exact SP|apply hn_tick]|]. intros u.
   eapply tr_bind; [stab|apply trT_run_body; [exact Hb|stab]|]. intros g. destruct (negb g); [eapply tr_true; apply tr_ret|].
   eapply tr_bind; [stab|apply trT_cond_bool; [exact Hc|stab]|]. intros v. destruct v; [eapply tr_true; apply tr_ret|apply IH; stab].
 Qed.
+Lemma fits_int_payload it cl s : fits it (PInt 0) s -> cellmeta it cl s -> payload_kind (c_val cl) = dk (c_type cl) -> payload_kind (c_val cl) = KInt.
+Proof.
+  intros [c0 [E0 [Hk _]]] [c' [E' [_ [M2 _]]]] H. assert (c' = c0) by congruence. subst c'. cbn in Hk. congruence.
+Qed.
+(* the branch "the counter's cell holds something that is not an INTEGER" cannot be taken: the counter was found to be of type INTEGER *)
+Ltac for_contra HW it Ecv :=
+  apply tr_false; let s0 := fresh "s0" in let H0 := fresh "H0" in intros s0 H0; decompose [and] H0;
+  match goal with Hp : _ s0, Hm : cellmeta it ?cl s0, Hk : payload_kind (c_val ?cl) = dk (c_type ?cl) |- _ =>
+    let X := fresh in pose proof (fits_int_payload it cl s0 (proj2 (HW s0 Hp)) Hm Hk) as X; try rewrite Ecv in X; discriminate X end.
 (* FOR: the iterator was found writable before the loop; that stays true while the body runs *)
 Lemma tr_for lim k t c it stepv stop br : trT br -> forall (P : st -> Prop), stable P -> (forall s, P s -> wr it s /\ fits it (PInt 0) s) ->
   tr P (for_loop lim k t c it stepv stop br) (fun _ _ => True).
 Proof.
-  intros Hb. induction k as [|k IH]; intros P SP HW; cbn [for_loop]; [apply tr_failm|].
-  eapply tr_bind; [exact SP|apply tr_ro; apply ro_get_cell|]. intros cl. destruct (c_val cl); try apply tr_failm.
+  intros Hb. induction k as [|k IH]; intros P SP HW; cbn [for_loop]; [(apply tr_failm; okf)|].
+  eapply tr_bind; [exact SP|apply tr_get_cell|]. intros cl. destruct (c_val cl) eqn:Ecv; try (for_contra HW it Ecv).
   destruct (for_continues stepv z stop); [|eapply tr_true; apply tr_ret].
   eapply tr_bind; [stab|apply tr_hn; [stab|apply hn_tick]|]. intros u.
   eapply tr_bind; [stab|apply trT_run_body; [exact Hb|stab]|]. intros g. destruct (negb g); [eapply tr_true; apply tr_ret|].
-  eapply tr_bind; [stab|apply tr_ro; apply ro_get_cell|]. intros cl'. destruct (c_val cl'); try apply tr_failm.
+  eapply tr_bind; [stab|apply tr_get_cell|]. intros cl'. destruct (c_val cl') eqn:Ecv'; try (for_contra HW it Ecv').
   eapply tr_bind; [stab| |].
   - apply tr_set_cell_val. intros s H. assert (HPs : P s) by tauto. split; [apply (HW s HPs)|]. split; [apply valok_nonrec; intros; discriminate|exact (proj2 (HW s HPs))].
   - intros u2. apply IH; [stab|]. intros s H. apply HW. tauto.
@@ -121,14 +130,14 @@ Proof.
 Qed.
 Lemma trR_while lim k t c ce br : trT ce -> trT br -> trR (while_loop lim k t c ce br).
 Proof.
-  intros Hc Hb. induction k as [|k IH]; intros P SP; cbn [while_loop]; [apply tr_failm|].
+  intros Hc Hb. induction k as [|k IH]; intros P SP; cbn [while_loop]; [(apply tr_failm; okf)|].
   eapply tr_bind; [exact SP|apply tr_hn; [exact SP|apply hn_tick]|]. intros u.
   eapply tr_bind; [stab|apply trT_cond_bool; [exact Hc|stab]|]. intros v. destruct (negb v); [apply tr_ret_none|].
   eapply tr_bind; [stab|apply trT_run_body; [exact Hb|stab]|]. intros g. destruct g; [apply IH; stab|apply tr_ret_none].
 Qed.
 Lemma trR_repeat lim k t c ce br : trT ce -> trT br -> trR (repeat_loop lim k t c ce br).
 Proof.
-  intros Hc Hb. induction k as [|k IH]; intros P SP; cbn [repeat_loop]; [apply tr_failm|].
+  intros Hc Hb. induction k as [|k IH]; intros P SP; cbn [repeat_loop]; [(apply tr_failm; okf)|].
   eapply tr_bind; [exact SP|apply tr_hn; [exact SP|apply hn_tick]|]. intros u.
   eapply tr_bind; [stab|apply trT_run_body; [exact Hb|stab]|]. intros g. destruct (negb g); [apply tr_ret_none|].
   eapply tr_bind; [stab|apply trT_cond_bool; [exact Hc|stab]|]. intros v. destruct v; [apply tr_ret_none|apply IH; stab].
@@ -136,16 +145,24 @@ Qed.
 Lemma trR_for lim k t c it stepv stop br : trT br -> forall (P : st -> Prop), stable P -> (forall s, P s -> wr it s /\ fits it (PInt 0) s) ->
   tr P (for_loop lim k t c it stepv stop br) (fun r s => resok r s).
 Proof.
-  intros Hb. induction k as [|k IH]; intros P SP HW; cbn [for_loop]; [apply tr_failm|].
-  eapply tr_bind; [exact SP|apply tr_ro; apply ro_get_cell|]. intros cl. destruct (c_val cl); try apply tr_failm.
+  intros Hb. induction k as [|k IH]; intros P SP HW; cbn [for_loop]; [(apply tr_failm; okf)|].
+  eapply tr_bind; [exact SP|apply tr_get_cell|]. intros cl. destruct (c_val cl) eqn:Ecv; try (for_contra HW it Ecv).
   destruct (for_continues stepv z stop); [|apply tr_ret_none].
   eapply tr_bind; [stab|apply tr_hn; [stab|apply hn_tick]|]. intros u.
   eapply tr_bind; [stab|apply trT_run_body; [exact Hb|stab]|]. intros g. destruct (negb g); [apply tr_ret_none|].
-  eapply tr_bind; [stab|apply tr_ro; apply ro_get_cell|]. intros cl'. destruct (c_val cl'); try apply tr_failm.
+  eapply tr_bind; [stab|apply tr_get_cell|]. intros cl'. destruct (c_val cl') eqn:Ecv'; try (for_contra HW it Ecv').
   eapply tr_bind; [stab| |].
   - apply tr_set_cell_val. intros s H. assert (HPs : P s) by tauto. split; [apply (HW s HPs)|]. split; [apply valok_nonrec; intros; discriminate|exact (proj2 (HW s HPs))].
   - intros u2. apply IH; [stab|]. intros s H. apply HW. tauto.
 Qed.
+
+(* a branch that is taken only when a cell holds an object of another class than its type says *)
+Ltac bad_contra :=
+  apply tr_false; let s0 := fresh "s0" in let H0 := fresh "H0" in intros s0 H0; decompose [and] H0; unfold dt_is in *;
+  repeat match goal with H : negb _ = false |- _ => apply negb_false_iff in H | H : dk_eqb _ _ = true |- _ => apply dk_eqb_eq in H end;
+  repeat match goal with Hv : c_val ?cl = _, Hk : context [c_val ?cl] |- _ => rewrite Hv in Hk end;
+  repeat match goal with H : payload_kind _ = _ |- _ => progress cbn in H end;
+  congruence.
 
 Section Level.
 Variables (ped repl : bool) (lim : limits) (self : evs).
@@ -185,10 +202,10 @@ Proof.
     + intros s _. cbn [c_val c_type]. split; [apply valok_nonrec; intros tn c E; subst p; destruct ty as [k n]; destruct k, n; cbn in Ed; discriminate|].
       destruct ty as [k n]. destruct k, n; cbn in Ed; inversion Ed; (split; [reflexivity|]); intros tn0 Hn0; cbn in Hn0; first [discriminate Hn0|inversion Hn0; reflexivity].
     + intros id. eapply tr_post; [apply tr_ret|]. intros a s [-> [_ Hm]]. exists p. split; [exact Hm|eapply default_prim_named; eauto].
-  - destruct (dk ty) eqn:Ek; try apply tr_failm. destruct (dname ty) as [tn|] eqn:En; try apply tr_failm.
+  - destruct (dk ty) eqn:Ek; try (apply tr_failm; okf). destruct (dname ty) as [tn|] eqn:En; try (apply tr_failm; okf).
     eapply tr_bind; [exact SP|apply tr_new_ctx; exact SP|]. intros rc.
     eapply tr_bind; [stab2|apply tr_hn; [stab2|hnt hknown]|]. intros dd.
-    destruct dd as [body|]; [|apply tr_failm].
+    destruct dd as [body|]; [|(apply tr_failm; okf)].
     eapply tr_bind; [stab2|apply Hb; stab2|]. intros u.
     apply tr_alloc_cell; [stab2| |].
     + intros s [[[_ Hk] _] _]. cbn [c_val c_type]. split; [intros tn' c' E; inversion E; subst; exact Hk|]. split; [cbn; first [rewrite Ek; reflexivity|symmetry; exact Ek|reflexivity]|]. intros tn0 Hn0. cbn in Hn0. inversion Hn0; subst. first [exact En|rewrite En; reflexivity|reflexivity].
@@ -197,7 +214,7 @@ Qed.
 
 Ltac ht known :=
   repeat first
-    [ apply tr_failm | apply tr_rt_error | (eapply tr_true; apply tr_ret)
+    [ (apply tr_failm; okf) | apply tr_rt_error | (eapply tr_true; apply tr_ret)
     | known
     | (apply tr_hn_true; [stab2 | solve [hnt hknown]])
     | match goal with
@@ -231,7 +248,7 @@ Ltac evk :=
         | (apply trT_eval_bounds; [intros ? ? ?; eapply tr_true; apply He; assumption | stab2]) ].
 
 Lemma tr_resolve_body (P : st -> Prop) r c : stable P -> tr P (resolve_body self r c) (fun _ _ => True).
-Proof. intros SP. destruct r; unfold resolve_body; ht evk. Qed.
+Proof. intros SP. destruct r; unfold resolve_body; ht evk; bad_contra. Qed.
 Lemma tr_case_equals_body (P : st -> Prop) v e c : stable P -> tr P (case_equals_body self v e c) (fun _ _ => True).
 Proof. intros SP. unfold case_equals_body; ht evk. Qed.
 Lemma tr_case_range_body (P : st -> Prop) v lo hi c : stable P -> tr P (case_range_body self v lo hi c) (fun _ _ => True).
@@ -261,7 +278,7 @@ Lemma tr_bind_args_body (P : st -> Prop) t params args vals c fc : stable P ->
   (forall s, P s -> ctxkind fc false s /\ Forall (fun v => resok v s) vals) -> tr P (bind_args_body self t params args vals c fc) (fun _ _ => True).
 Proof.
   intros SP HP. unfold bind_args_body.
-  destruct params as [|[[pn pty] byref] pr]; [eapply tr_true; apply tr_ret|]. destruct args as [|a ar]; [apply tr_failm|]. destruct vals as [|v vr]; [apply tr_failm|].
+  destruct params as [|[[pn pty] byref] pr]; [eapply tr_true; apply tr_ret|]. destruct args as [|a ar]; [(apply tr_failm; okf)|]. destruct vals as [|v vr]; [(apply tr_failm; okf)|].
   ht evk.
   - intros s Hs cx E F. exfalso. assert (HPs : P s) by tauto. destruct (HP s HPs) as [Hk _]. eapply not_rec_contra; eauto.
   - intros s Hs. eapply newvar_wr. decompose [and] Hs. eassumption.
@@ -271,17 +288,17 @@ Qed.
 
 Lemma trT_call_body d cc ab m : trT m -> trT (call_body d cc ab m).
 Proof.
-  intros H P SP s HI HP. destruct (H P SP s HI HP) as [I1 [K1 _]]. unfold call_body. destruct (m s) as [[a|f] s1]; cbn [fst snd] in *.
+  intros H P SP s HI HP. destruct (H P SP s HI HP) as [I1 [K1 O1]]. unfold call_body. destruct (m s) as [[a|f] s1]; cbn [fst snd] in *.
   - split; [eapply Inv_heap_same; [|exact I1]; repeat split|]. split; [eapply K_trans; [exact K1|apply K_heap_same; repeat split]|exact I].
   - assert (HS : heap_same s1 (set_depth d s1)) by (repeat split).
     assert (I2 : Inv (set_depth d s1)) by (eapply Inv_heap_same; eauto).
     assert (K2 : K s (set_depth d s1)) by (eapply K_trans; [exact K1|apply K_heap_same; exact HS]).
-    destruct f; try (split; [exact I2|]; split; [exact K2|exact I]).
-    + pose proof (@ro_runtime_error_cls unit EOther t cc (set_depth d s1)) as R. unfold rt_error. rewrite R. split; [exact I2|]. split; [exact K2|].
-      unfold runtime_error_cls. destruct ((cx <- get_ctx cc ;; _) (set_depth d s1)) as [[x|y] z]; exact I.
-    + pose proof (@ro_runtime_error_cls unit EOther t cc (set_depth d s1)) as R. unfold rt_error. rewrite R. split; [exact I2|]. split; [exact K2|].
-      unfold runtime_error_cls. destruct ((cx <- get_ctx cc ;; _) (set_depth d s1)) as [[x|y] z]; exact I.
-    + destruct ab; (split; [exact I2|]; split; [exact K2|exact I]).
+    assert (RT : forall t, Inv (snd (@rt_error unit t cc (set_depth d s1))) /\ K s (snd (@rt_error unit t cc (set_depth d s1))) /\
+                           match fst (@rt_error unit t cc (set_depth d s1)) with Ok _ => True | Fail f => ok_fail f end).
+    { intros t. pose proof (@ro_runtime_error_cls unit EOther t cc (set_depth d s1)) as R. pose proof (@nb_runtime_error_cls unit EOther t cc (set_depth d s1)) as N.
+      unfold rt_error. rewrite R. split; [exact I2|]. split; [exact K2|]. destruct (fst (runtime_error_cls EOther t cc (set_depth d s1))); [exact I|exact N]. }
+    destruct f; try (split; [exact I2|]; split; [exact K2|exact O1]); try apply RT.
+    destruct ab; (split; [exact I2|]; split; [exact K2|exact I]).
 Qed.
 
 Lemma tr_run_block_body (P : st -> Prop) bl c : stable P -> tr P (run_block_body repl lim self bl c) (fun _ _ => True).
@@ -330,7 +347,7 @@ Qed.
 Lemma tr_run_builtin (P : st -> Prop) n fc args : stable P -> tr P (run_builtin n fc args) (fun r s => resok r s).
 Proof.
   intros SP. unfold run_builtin. cbv zeta.
-  repeat first [ apply tr_rt_error | apply tr_failm | (apply tr_ret_prim; reflexivity)
+  repeat first [ apply tr_rt_error | (apply tr_failm; okf) | (apply tr_ret_prim; reflexivity)
                | match goal with
                  | |- tr _ (bind _ _) _ => eapply tr_bind; [stab2 | apply tr_hn; [stab2 | unfold next_rand; hnt hknown] | intros ?]
                  | |- tr _ (if ?c then _ else _) _ => destruct c
